@@ -38,6 +38,23 @@ EXPLANATION = (
 )
 
 
+def _peel_layout(t):
+    """Strips wrappers that only rearrange elements: T(x) / x.T / x.transpose(..) / x.reshape(..) / x.swapaxes(..) / x.squeeze(..) /
+    jnp.transpose|reshape|moveaxis|swapaxes|squeeze(x, ..)."""
+    while isinstance(t, tuple) and t:
+        if t[0] == 'attr' and t[2] in ('T', 'mT'):
+            t = t[1]
+        elif t[0] == 'T' and len(t) == 2:
+            t = t[1]
+        elif t[0] == 'call' and isinstance(t[1], tuple) and t[1][0] == 'attr' and t[1][2] in ('transpose', 'reshape', 'swapaxes', 'squeeze') and t[1][1] not in (('var', 'jnp'), ('var', 'np')):
+            t = t[1][1]
+        elif t[0] == 'call' and isinstance(t[1], tuple) and t[1][0] == 'attr' and t[1][1] in (('var', 'jnp'), ('var', 'np')) and t[1][2] in ('transpose', 'reshape', 'moveaxis', 'swapaxes', 'squeeze') and t[2]:
+            t = t[2][0]
+        else:
+            break
+    return t
+
+
 def _ret_env(fn: ast.FunctionDef):
     out = []
     for p in function_paths(fn):
@@ -81,9 +98,29 @@ def run(ctx, ck) -> None:
         reshaped = base is not idx
         ang = base[2][0][1] if base is not None and base[0] == 'call' and base[1] == ('attr', land, 'world2index') and len(base[2]) == 2 and base[2][0][0] == 'item' else None
         ok_idx = ang is not None and base[2] == (('item', ang, 0), ('item', ang, 1)) and ang[0] == 'call' and ang[1] == ('var', 'vec2dir') and len(ang[2]) == 1 and ang[2][0][0] == 'star'
-        ck.expect('Q1', ok_idx, proj_fn, 'indices = landscape.world2index(*vec2dir(*rotated))' + (' with the unit direction axis squeezed out' if reshaped else ''),
-                  f'the sampled indices are {show(idx)[:160]}', instance=inst + ' indices')
-        es = ang[2][0][1] if ok_idx else None
+        rearranged = False
+        if not ok_idx:
+            # the same content under layout-only wrappers (.T, transpose, reshape, swapaxes, moveaxis, squeeze): what is computed is
+            # recognised, *where each value lands* is a question about element order that this written-form clause cannot answer
+            core = _peel_layout(idx)
+            ang2 = core[2][0][1] if core is not None and core[0] == 'call' and core[1] == ('attr', land, 'world2index') and len(core[2]) == 2 and core[2][0][0] == 'item' else None
+            if core is not idx and ang2 is not None and core[2] == (('item', ang2, 0), ('item', ang2, 1)) and ang2[0] == 'call' and ang2[1] == ('var', 'vec2dir') and len(ang2[2]) == 1 and ang2[2][0][0] == 'star':
+                rearranged = True
+                ang = ang2
+        if rearranged:
+            ck.incomplete('Q1', proj_fn, f'the sampled indices are world2index(*vec2dir(*rotated)) rearranged by transpositions / reshapes ({show(idx)[:120]}): whether every index stays at its '
+                          '(detector, direction, sample) position is not decided by this clause', instance=inst + ' indices')
+        else:
+            ck.expect('Q1', ok_idx, proj_fn, 'indices = landscape.world2index(*vec2dir(*rotated))' + (' with the unit direction axis squeezed out' if reshaped else ''),
+                      f'the sampled indices are {show(idx)[:160]}', instance=inst + ' indices')
+        es = ang[2][0][1] if (ok_idx or rearranged) else None
+        if rearranged:
+            rot_m = ('call', ('var', 'get_rotation_matrix'), (samp,), ())
+            known = es is not None and es[0] == 'call' and es[1] == ('attr', ('var', 'jnp'), 'einsum') and len(es[2]) == 3 and es[2][1] == rot_m and es[2][2] == ('attr', dirs, 'coords')
+            if not known:
+                ck.incomplete('Q3', proj_fn, f'the rotation is applied to rearranged coordinates ({show(es)[:120]}): the pairing of the contraction with the rearranged layout is not decided by this clause', instance=inst + ' einsum')
+                struct = None
+                continue
         rot_m = ('call', ('var', 'get_rotation_matrix'), (samp,), ())
         ok_es = es is not None and es[0] == 'call' and es[1] == ('attr', ('var', 'jnp'), 'einsum') and len(es[2]) == 3 and es[2][1] == rot_m and es[2][2] == ('attr', dirs, 'coords')
         subs = eval(es[2][0][1]).replace(' ', '') if ok_es and es[2][0][0] == 'const' else ''
